@@ -114,6 +114,45 @@ theorem flagged_calls_create {s : Simp} (hs : SimpSound s) {o : Oracle} (ho : Or
   · rw [hd] at hd'; cases hd'
   · rw [hf] at hf'; cases hf'
 
+/-- **C10.flagged_calls_hsto.** The same with SLOAD / SSTORE at mapping and dynamic-array locations followed
+    (`cfg.hsto` on; hypotheses as in `C02.complete_calls_hsto`): the reporting end also describes the hashed cells of
+    the final world (`HRel`). -/
+theorem flagged_calls_hsto {s : Simp} (hs : SimpSound s) {o : Oracle} (ho : OracleSound o) (cfg : Cfg)
+    (hs3 : cfg.sha3 = true) (env : Env)
+    (codes : List (Nat × List Nat)) (this : Nat) (fuel : Nat) (p : Evm.Params) (w : Evm.World)
+    (SS : Nat → Prop) (hS0 : SS this) (hSc : ∀ a prog, codeOf codes a = some prog → SS a)
+    (hmem : cfg.maxMem + 32 ≤ p.memLimit) (hdep : 1024 ≤ p.maxDepth)
+    (hcodes : ∀ a, w.codeOf a = codeOf codes a)
+    (hcb : ∀ a prog, codeOf codes a = some prog → ∀ b ∈ prog, b < 256)
+    (hz : ∀ a, SS a → C01.ZeroStorage w a) (hch : CreateHyp cfg p SS w)
+    (I : Interp) (hI : I.Std) (hbal : cfg.balances = true → BalHyp I cfg w)
+    (hbound : cfg.balances = true → BalBound w) (hsha : ShaInterp I p cfg) (hez : HEmptyZero I)
+    (hshaok : ∀ cs, VisitedC s o cfg codes (initC env codes this) cs → ShaOK I s cfg cs)
+    (hhs : ∀ cs, VisitedC s o cfg codes (initC env codes this) cs → Sat I cs.st.path → HstoOK I p s cfg cs)
+    (f0 : Evm.Frame)
+    (hR0 : R I env ((codeOf codes this).getD []) p initState f0) (hthis : f0.this = this) (hd0 : f0.depth = 0)
+    (n : Nat) (w' : Evm.World) (h : Evm.Halt) (hex : Evm.exec p n w f0 = some (w', h))
+    (hb : (runC s o cfg env codes this fuel).boundedLoops = [])
+    (hd : (runC s o cfg env codes this fuel).depthCut = false)
+    (hf : (runC s o cfg env codes this fuel).outOfFuel = false)
+    (herr : ∀ ce ∈ (runC s o cfg env codes this fuel).ends, Sat I ce.e.st.path →
+      (∀ r, ce.e.out ≠ .stuck r) ∧ ce.e.tag = .normal) :
+    ∃ ce ∈ (runC s o cfg env codes this fuel).ends, Sat I ce.e.st.path ∧ ce.e.tag = .normal ∧
+      (∃ h0, ce.e.out = .halt h0 ∧ haltWith h0 (ce.e.data.map (·.eval I)) = h) ∧
+      WRelM I SS (wd w ce.created ce.nonce) w' (stoOf ce.stores) (evalLogs I ce.logs) (balSem I w ce.bal) ∧
+      HRel I p SS w' ce.hsto := by
+  rcases C02.complete_calls_hsto hs ho cfg hs3 env codes this fuel p w SS hS0 hSc hmem hdep hcodes hcb hz hch I hI hbal
+      hbound hsha hez hshaok hhs f0 hR0 hthis hd0 n w' h hex
+    with ⟨ce, hm, hsat, hc⟩ | hb' | hd' | hf'
+  · obtain ⟨hns, htag⟩ := herr ce hm hsat
+    rcases hc with ⟨h0, ho', hw, _, hW⟩ | ⟨r, hr⟩ | ht
+    · exact ⟨ce, hm, hsat, htag, ⟨h0, ho', hw⟩, hW.1, hW.2.2⟩
+    · exact absurd hr (hns r)
+    · exact absurd htag ht
+  · exact absurd hb hb'
+  · rw [hd] at hd'; cases hd'
+  · rw [hf] at hf'; cases hf'
+
 /-- the two cuts of the frame-stack worklist loop raise their flag, exactly as in `cuts_flagged` -/
 theorem cuts_flagged_calls {s : Simp} {o : Oracle} {cfg : Cfg} {codes : List (Nat × List Nat)} (fuel steps : Nat)
     (cs : CState) (wl : List CState) (acc : ResultC) :
